@@ -626,6 +626,20 @@ pub fn run(c: &mut Ctx) {
         }
     }
 
+    // the kernel-checked instance of the finding (Props/C17.lean), replayed on the crate
+    {
+        let x = NaiveDate::from_ymd_opt(2016, 12, 31).unwrap().and_hms_nano_opt(23, 59, 59, 1_500_000_000).unwrap();
+        let r = guard(|| x.duration_round_up(TimeDelta::minutes(1)));
+        let want = NaiveDate::from_ymd_opt(2017, 1, 1).unwrap().and_hms_opt(0, 0, 59).unwrap();
+        if r == Ok(Ok(want)) {
+            c.count("finding:2016-12-31T23:59:60.5 .duration_round_up(1 min) = 2017-01-01T00:00:59 (reproduced)");
+        } else {
+            c.count("finding:2016-12-31T23:59:60.5 .duration_round_up(1 min) no longer gives 00:00:59");
+            c.sample(&format!("leap-second finding not reproduced: got {:?}", r));
+        }
+        case(c, x, TimeDelta::minutes(1), "leap");
+    }
+
     // ---- SubsecRound ----------------------------------------------------------------------------------
     for d in 0..=u16::MAX as u32 {
         // every u16 digit count
